@@ -22,6 +22,15 @@ from common import spec, cfgpath
 
 NAMES = {'prefix': 'secret_token', 'infix': 'my_secret_key', 'suffix': 'db_secret', 'exact': 'secret', 'none': 'api_token',
          'upper': 'SECRET_UPPER', 'similar': 'secre_t'}
+NAMES_LONG = dict(NAMES, prefix='secret_' + 'configuration_value_' * 2 + 'x', infix='the_quite_long_name_of_a_secret_configuration_value',
+                  suffix='payment_gateway_webhook_signing_secret')
+
+
+def names_of(rec):
+    """short names, or names longer than anything a display would truncate to ('secret' beyond the 30th character)"""
+    return NAMES_LONG if rec.get('_variant', 0) % 4 == 1 else NAMES
+
+
 KEYMARK = 'KEYMARK9d41'
 MIDMARK = 'MIDMARK5b1e'      # value of a secret-named resource of an INTERMEDIATE application (meta mounted two levels deep)
 
@@ -94,6 +103,9 @@ def build(rec, markers):
             raise broken_exc('repr of this middleware is broken')
 
     class PlainMw(Middleware):
+        # `provides` may be any collection of names - here an (empty) frozenset
+        provides = frozenset() if rec.get('_variant', 0) % 2 else ()
+
         def request(self, next):
             return next()
 
@@ -106,13 +118,13 @@ def build(rec, markers):
             return Response('method')
     res = {}
     for r in rec['resources']:
-        res[NAMES[r['nc']]] = value_of(r['vk'], markers[r['nc']])
+        res[names_of(rec)[r['nc']]] = value_of(r['vk'], markers[r['nc']])
         if r['vk'] == 'obj' and r['nc'] in ('prefix', 'infix', 'suffix', 'exact') and rec.get('_variant', 0) % 2:
-            res[NAMES[r['nc']]] = RaisingRepr(markers[r['nc']])     # a secret is never repr()-ed, so this is harmless
+            res[names_of(rec)[r['nc']]] = RaisingRepr(markers[r['nc']])     # a secret is never repr()-ed, so this is harmless
         elif r['vk'] == 'obj' and rec.get('_variant', 0) % 4 == 2:
-            res[NAMES[r['nc']]] = FalsyObj(markers[r['nc']])       # redaction goes by the NAME; the value may be falsy
+            res[names_of(rec)[r['nc']]] = FalsyObj(markers[r['nc']])       # redaction goes by the NAME; the value may be falsy
         elif r['vk'] == 'str' and r['nc'] in ('prefix', 'infix', 'suffix', 'exact') and rec.get('_variant', 0) % 5 == 3:
-            res[NAMES[r['nc']]] = ''                                # an unset secret is still listed as redacted
+            res[names_of(rec)[r['nc']]] = ''                                # an unset secret is still listed as redacted
     mws = []
     if 'cookie' in rec['mws']:
         ck_cls = SignedCookieMiddleware
@@ -128,7 +140,7 @@ def build(rec, markers):
     if 'ctxprocsecret' in rec['mws']:
         # a host-level context processor that copies a secret-named resource into every render context
         from clastic.middleware.context import ContextProcessor
-        secret_names = [NAMES[r['nc']] for r in rec['resources'] if r['nc'] in ('prefix', 'infix', 'suffix', 'exact')]
+        secret_names = [names_of(rec)[r['nc']] for r in rec['resources'] if r['nc'] in ('prefix', 'infix', 'suffix', 'exact')]
         if secret_names:
             mws.append(ContextProcessor(required=secret_names[:1]))
     routes = []
@@ -208,7 +220,7 @@ def project(rec, markers, status, body, is_json):
     vs = views(body, is_json)
     res = []
     for r in rec['resources']:
-        name = NAMES[r['nc']]
+        name = names_of(rec)[r['nc']]
         mt = marker_text(r['vk'], markers[r['nc']])
         leak = any(mt in v for v in vs)
         listed = any(name in v for v in vs)
